@@ -32,7 +32,8 @@ var Def = driver.PropDef{
 		"R3 bounded retry (recursive call with depth-1, only when depth != 0, depth 0 ends in an error; maxRetries a non-negative constant; no other loop); " +
 		"R4 every node is probed (Source followed by all Slaves, no early exit from the loop); " +
 		"R5 updateSlotTopology turns an error into a no-return log and otherwise replaces ds.node; " +
-		"R6 on the call tree of the role probe (connection factory, OpenNetConn, AuthPassword, ...) no branch taken on a non-nil error leads to a no-return call, except the sites frozen from the pinned tree.",
+		"R6 on the call tree of the role probe (connection factory, OpenNetConn, AuthPassword, ...) no branch taken on a non-nil error leads to a no-return call, except the sites frozen from the pinned tree; " +
+		"R7 the known nodes of a shard are its own: the replica list stored in a SlotOwner by GetSlotDistribution is a slice allocated anew between two stores (no backing array shared between shards).",
 	NotDecided: "'currently reports' (freshness of the answer), fault sequences across retries, the back-off duration, the INFO text format beyond the role:master / role:slave constants.",
 	Trusted:    []string{"go/parser, go/types, go/cfg (x/tools v0.29.0)", "regexp.MatchString / strings semantics", "redigo Conn.Do semantics"},
 	Run:        Run,
@@ -117,6 +118,8 @@ func Run(c *core.Ctx) {
 	if upd != nil {
 		useAtStart(c, upd)
 	}
+	knownNodes(c)
+	c.Expect(ruleNodes, 1)
 	c.Expect("R1.node", 6)
 	c.Expect("R1.select", 5)
 	c.Expect("R2.partition", 2)
